@@ -4,7 +4,9 @@ package main
 
 import (
 	"fmt"
+	"go/token"
 	"go/types"
+	"path/filepath"
 	"sort"
 	"strings"
 
@@ -25,6 +27,17 @@ func scanOblig(name, class, clause string, ok bool, detail string) *Oblig {
 		o.Clause = clause + " — " + detail
 	}
 	return o
+}
+
+// inHookFile: declared in a verif-tagged hook file (zz_*_verif.go): lemma functions and their helpers are not
+// library code.
+func inHookFile(L *Loaded, pos token.Pos) bool {
+	if !pos.IsValid() {
+		return false
+	}
+	f := L.Fset.Position(pos).Filename
+	b := filepath.Base(f)
+	return strings.HasPrefix(b, "zz_") && strings.HasSuffix(b, "_verif.go")
 }
 
 func typeHasRefs(t types.Type, depth int) bool {
@@ -68,7 +81,7 @@ func globalsHook(L *Loaded) []*Oblig {
 	var globals []*ssa.Global
 	for _, sp := range L.SSAPkgs {
 		for _, m := range sp.Members {
-			if g, ok := m.(*ssa.Global); ok && !strings.HasPrefix(g.Name(), "init$") {
+			if g, ok := m.(*ssa.Global); ok && !strings.HasPrefix(g.Name(), "init$") && !inHookFile(L, g.Pos()) {
 				globals = append(globals, g)
 			}
 		}
@@ -82,7 +95,7 @@ func globalsHook(L *Loaded) []*Oblig {
 		return nil
 	}
 	for fn := range L.AllFuncs {
-		if !L.isRepoFunc(fn) || fn.Blocks == nil {
+		if !L.isRepoFunc(fn) || fn.Blocks == nil || inHookFile(L, fn.Pos()) {
 			continue
 		}
 		isInit := fn.Name() == "init" || strings.HasPrefix(fn.Name(), "init#")
